@@ -3086,15 +3086,24 @@ func compareContainerPortAndServicePort(containerPort api_v1.ContainerPort, svcP
 	return false
 }
 
-func (lbc *LoadBalancerController) getExternalEndpointsForIngressBackend(backend *networking.IngressBackend, svc *api_v1.Service) []podEndpoint {
-	address := fmt.Sprintf("%s:%d", svc.Spec.ExternalName, backend.Service.Port.Number)
+func (lbc *LoadBalancerController) getExternalEndpointsForIngressBackend(backend *networking.IngressBackend, svc *api_v1.Service) ([]podEndpoint, error) {
+	port := backend.Service.Port.Number
+	if backend.Service.Port.Name != "" {
+		// the backend references the service port by name: use the number of that port
+		svcPort := lbc.getServicePortForIngressPort(backend.Service.Port, svc)
+		if svcPort == nil {
+			return nil, fmt.Errorf("no port %v in service %s", backend.Service.Port, svc.Name)
+		}
+		port = svcPort.Port
+	}
+	address := fmt.Sprintf("%s:%d", svc.Spec.ExternalName, port)
 	endpoints := []podEndpoint{
 		{
 			Address: address,
 			PodName: "",
 		},
 	}
-	return endpoints
+	return endpoints, nil
 }
 
 func (lbc *LoadBalancerController) getEndpointsForIngressBackend(backend *networking.IngressBackend, svc *api_v1.Service) (result []podEndpoint, isExternal bool, err error) {
@@ -3105,7 +3114,10 @@ func (lbc *LoadBalancerController) getEndpointsForIngressBackend(backend *networ
 			if !lbc.isNginxPlus {
 				return nil, false, fmt.Errorf("type ExternalName Services feature is only available in NGINX Plus")
 			}
-			result = lbc.getExternalEndpointsForIngressBackend(backend, svc)
+			result, err = lbc.getExternalEndpointsForIngressBackend(backend, svc)
+			if err != nil {
+				return nil, false, err
+			}
 			return result, true, nil
 		}
 		nl.Debugf(lbc.Logger, "Error getting endpoints for service %s from the cache: %v", svc.Name, err)
